@@ -1265,6 +1265,8 @@ func main() {
 			run.Violate("property", "corpus case "+f+": "+what, classify(&c, what), false, &c)
 		}
 	}
+	// fixed cases first, at every seed, independent of the random source
+	h.systematic()
 	const staged = true
 	// modes 1, 2 (staged / cloned) and 3, 4 (rebuild of the same objects after an edit)
 	const lastMode = 4
